@@ -12,7 +12,8 @@ theorem kidsX_plain (xs : Array ExpertRec) {k : Kind} (h : PlainKind k) : kidsX 
 theorem CF.kf {k : Kind} {s s' : State} (C : CF k s s') : KF s s' :=
   ⟨by rw [C.size]; omega, fun m hm => by rw [C.nodeD_lt hm],
     fun e er he => ⟨er, by rw [C.experts]; exact he, rfl⟩, fun j n h => C.top_old h,
-    fun m hm => by rw [C.nodeD_lt hm, C.experts]⟩
+    fun m hm => by rw [C.nodeD_lt hm, C.experts],
+    fun m e hm hk hs => V_stamp_keep hk (by rw [C.nodeD_lt hm]) (by rw [C.nodeD_lt hm]) (by rw [C.experts]; exact id) hs⟩
 
 theorem PFrag.of_cf {env : Env} {k : Kind} {s s' : State} (P : PFrag env s) (C : CF k s s') (hk : PKind env k)
     (hp : PlainKind k) : PFrag env s' := by
